@@ -1,8 +1,11 @@
 #!/bin/bash
 # usage: tools_try.sh <patch.diff> <prop-id>...   — apply a patch to /repo, run checks, revert
 p=$1; shift
+# evidence of runs against mutated trees goes to a scratch directory, never to /verif/evidence
+export VERIF_EVIDENCE_DIR=$(mktemp -d /tmp/verif-ev.XXXXXX)
 if ! git -C /repo apply "$p" 2>/dev/null; then
   git -C /repo apply -3 "$p" 2>/dev/null || { echo "patch does not apply"; git -C /repo reset -q --hard; exit 3; }
 fi
 for id in "$@"; do /verif/check $id 2>&1 | grep -E "VIOLATION|KNOWN|rule=|quick:|INFRA|Error|error" | cut -c1-400; done
 git -C /repo reset -q --hard
+rm -rf "$VERIF_EVIDENCE_DIR"
